@@ -490,6 +490,11 @@ impl Iterator for QueryState<'_> {
 
         let var_dict = &term_write_result.var_dict;
 
+        // NOTE: the names given to anonymous variables are shared by all
+        // bindings of one answer, so that distinct variables get distinct
+        // names and a variable shared between bindings keeps its name.
+        let mut answer_var_names = var_names.clone();
+
         for (var_key, term_to_be_printed) in var_dict.iter() {
             let mut var_name = var_key.to_string();
             if var_name.starts_with('_') {
@@ -503,7 +508,7 @@ impl Iterator for QueryState<'_> {
             }
 
             let mut term =
-                Term::from_heapcell(machine, *term_to_be_printed, &mut var_names.clone());
+                Term::from_heapcell(machine, *term_to_be_printed, &mut answer_var_names);
 
             if let Term::Var(ref term_str) = term {
                 if *term_str == var_name {
